@@ -926,9 +926,25 @@ func (c *EvalCtx) call(e *Expr) Value {
 		argn(0)
 		st := c.state()
 		if c.ex.mode == "L2" {
-			fail("stAttesters() is an L3 notion")
+			// the list as an array defined pointwise from the raw store (definitional side condition)
+			arr := Fresh("attListOf", SArray(SBV(64), SBytes))
+			j := Var("q$al", SBV(64))
+			c.side = append(c.side, Forall([]*Term{j}, Eq(Select(arr, j), coupling(st, "attList", []*Term{j})), []*Term{Select(arr, j)}))
+			return VList{ElemT: c.ex.attesterType(), Len: coupling(st, "nAtt", nil), Cols: map[string]*Term{"Attester": arr}}
 		}
 		return VList{ElemT: c.ex.attesterType(), Len: st.abs["nAtt"], Cols: map[string]*Term{"Attester": st.abs["attList"]}}
+	case "iterPos":
+		// position of the function's store iterator (number of entries already passed)
+		argn(0)
+		st := c.state()
+		for _, fr := range st.frames {
+			for _, v := range fr.Regs {
+				if it, ok := v.(VIter); ok {
+					return VBV{st.cells[it.Cell].(VBV).T, false}
+				}
+			}
+		}
+		fail("no iterator in scope")
 	case "validAtt":
 		// acceptance predicate of C01 over (message, attestation, attester list, threshold)
 		argn(4)
